@@ -27,7 +27,10 @@ def run(run):
     for oid, ok, detail in obs:
         run.count(oid, ok, 'static analysis of the AST of /repo (pyvc.inventory)', 0.0, 'property', 'unsat' if ok else 'sat',
                   sample={'obligation': oid, 'verdict': 'discharged' if ok else 'refuted', 'detail': detail[:160]})
-        if not ok:
+        if not ok and 'called_only_when_a_model_is_created' in oid:
+            # another caller is not by itself a violation (an explicit user-invoked reset would be legitimate): the histories below decide
+            run.undecide(oid, detail)
+        elif not ok:
             run.violation(oid, detail, replay={'kind': 'inventory', 'detail': detail, 'reset_assigns': {'%s.%s' % k: v for k, v in inv['reset'].items()},
                                                'writes': {'%s.%s' % k: v for k, v in inv['writes'].items()}},
                           signature={'location': oid.split('/')[2]}, reproduced=False)
